@@ -31,6 +31,11 @@ Does not decide: preview/apply equality (tree values) — not applicable to stat
 """
 
 
+#: functions that are clones in bzr/transform.py and git/transform.py on the pinned tree (confirmed by comparing the
+#: normalised bodies); they compute raw conflicts and the name/parent/limbo bookkeeping that preview and apply share
+CLONES = ["TreeTransformBase._duplicate_entries", "TreeTransformBase._parent_loops", "TreeTransformBase._parent_type_conflicts", "TreeTransformBase._overwrite_conflicts", "TreeTransformBase._executability_conflicts", "TreeTransformBase._check_malformed", "TreeTransformBase._has_named_child", "TreeTransformBase._get_potential_orphans", "TreeTransformBase._new_entry", "TreeTransformBase.new_file", "TreeTransformBase.new_directory", "TreeTransformBase.new_symlink", "TreeTransformBase.new_orphan", "TreeTransformBase._available_backup_name", "TreeTransformBase.create_path", "TreeTransformBase.cancel_creation", "TreeTransformBase.cancel_versioning", "DiskTreeTransform.adjust_path", "DiskTreeTransform.new_orphan", "DiskTreeTransform.cancel_creation", "DiskTreeTransform._rename_in_limbo"]
+
+
 def emitted_kinds(repo, rel):
     """Kinds in position 0 of tuples yielded / appended by the raw-conflict finders of a transform module."""
     out = {}
@@ -73,6 +78,11 @@ def run(ctx):
     ctx.check("R1-pass-feeds-back", where, any(call_attr(c) == "find_raw_conflicts" for s in body for c in calls_in(s)) and any(norm(c.func) == "pass_func" for s in body for c in calls_in(s)), "each pass recomputes the raw conflicts and applies the pass function to them")
     fcp = repo.func(TR, "conflict_pass")
     ctx.check("R1-pass-feeds-back", f"{TR}:conflict_pass", "CONFLICT_RESOLVERS.get(conflict[0])" in norm(fcp) and "resolver(tt, path_tree, *conflict)" in norm(fcp), "conflict_pass dispatches on the conflict kind through CONFLICT_RESOLVERS")
+
+    # ---- R3: sibling agreement of the shared conflict finders / path bookkeeping ------------
+    from ..rules import clone_agreement
+
+    clone_agreement(ctx, "R3-sibling-clone", BT, GT, CLONES, "shared raw-conflict finder / preview bookkeeping")
 
     # ---- R2 -----------------------------------------------------------------
     mod = repo.module(TR)
@@ -157,5 +167,8 @@ MUTANTS = [
     Mutant("emitted kind renamed on one side", BT, "yield (\"duplicate\", last_trans_id, trans_id, name)", "yield (\"dup\", last_trans_id, trans_id, name)", expect="R2-emitted-kind-known"),
     Mutant("returns with conflicts left after the last pass", TR, "            new_conflicts.update(pass_func(tt, conflicts))\n        raise MalformedTransform(conflicts=conflicts)", "            new_conflicts.update(pass_func(tt, conflicts))\n        return new_conflicts", expect="R1-exits"),
     Mutant("git cooker loses an arm", GT, "            elif c[0] == \"missing parent\":", "            elif c[0] == \"missing-parent\":", expect="R2-git-cooker-accepts"),
+    Mutant("duplicate check ignores versioned-but-missing entries (bzr only)", BT, "                kind = self.final_kind(trans_id)\n                if kind is None and not self.final_is_versioned(trans_id):\n                    continue\n                if name == last_name:", "                if self.final_kind(trans_id) is None:\n                    continue\n                if name == last_name:", expect="R3-sibling-clone"),
+    Mutant("git parent-loop detection stops after the first hop", GT, "                if parent_id in seen:\n                    break\n\n    def _improper_versioning", "                break\n\n    def _improper_versioning", expect="R3-sibling-clone"),
+    Mutant("neutral: temporary inlined and local renamed on one side", BT, "                kind = self.final_kind(trans_id)\n                if kind is None and not self.final_is_versioned(trans_id):\n                    continue\n                if name == last_name:", "                if self.final_kind(trans_id) is None and not self.final_is_versioned(trans_id):\n                    continue\n                if name == last_name:", neutral=True),
     Mutant("neutral: pass bound raised", TR, "        for n in range(10):\n            pb.update(gettext(\"Resolution pass\"), n + 1, 10)", "        for n in range(20):\n            pb.update(gettext(\"Resolution pass\"), n + 1, 20)", neutral=True),
 ]
